@@ -459,7 +459,7 @@ pub fn stress_family() -> Vec<Spec> {
     // chains C^n for a class mixing a character and a range (each link is a state with two
     // incoming arms; the code generator inlines single-predecessor states)
     let c = set(&[('_', '_'), ('a', 'z')]);
-    for n in 1..=14usize {
+    for n in 1..=13usize {
         let mut r = c.clone();
         for _ in 1..n {
             r = cat(r, c.clone());
